@@ -25,7 +25,7 @@ CHECKS["C03"] = dict(
          "weakness) is that semantics; (c) C03_value / C03_redecided combine them per horizon.  No bound on nesting, sharing, horizon.  "
          "Tie: on every run the real implementation's literal valuation in every answer set is checked to solve exactly these equations on "
          "all reachable pairs and each theory atom to equal its root formula (instrumentation from outside, no hook).  Search: witness "
-         "atoms at every state against the executable LTL_f specification on all traces.",
+         "atoms at every state against the executable LTL_f specification on all traces.  placeholder_life — the life cycle of the obligation of a `>` beyond the horizon (model of Next.do_translate and the todo list; every call of the real method is compared with the model): pending with the end-of-trace value and queued under its own step exactly while the target state does not exist, resolved in the one call in which the horizon reaches the target.",
     design="§6 C03", technique="Lean 4 proof (unique solution of the translation's equation system = LTL_f) + equation-level correspondence with the real translation")
 
 CHECKS["C05"] = dict(
